@@ -402,6 +402,17 @@ func (db *DB) Merge() error {
 			f.rwManager.Close()
 			return fmt.Errorf("when merge err: %s", err)
 		}
+		if db.opt.SyncEnable {
+			// The removal has to be durable before a later segment is merged:
+			// Merge drops the tombstones (and newer versions) that kept the
+			// records of this segment dead. If a power loss brought this segment
+			// back after those were gone, deleted and superseded data reappeared.
+			if err := syncDir(db.opt.Dir); err != nil {
+				db.isMerging = false
+				f.rwManager.Close()
+				return fmt.Errorf("when merge err: %s", err)
+			}
+		}
 
 		f.rwManager.Close()
 
